@@ -22,6 +22,16 @@ CheckRec(r) ==
        /\ (r.exact => Chk("DRIFT_PassDiffersFromModel", k, r.passes[k + 1] = Pass(k, r.passes[k])))
   /\ Chk("C04_FinalNoEmptyChunk", 9, \A i \in 1..Len(r.passes[10]) : r.passes[10][i] # <<>>)
   /\ Chk("C04_FinalEqualsCreate", 9, r.final = r.passes[10])
+  \* C05 at the lexical level, on what the real code produced: in a line without quotes / backslashes every final chunk of two
+  \* or more characters is a blank run, a compound delimiter of the language (fsym, decided by the harness from the LRM list,
+  \* not from VSG's tables) or free of delimiter characters (fcls: per character 1 blank, 2 VHDL delimiter, 3 quote or
+  \* backslash, 0 anything else)
+  /\ Chk("C05_DelimitersSeparate", 9,
+         (\A i \in 1..Len(r.fcls) : \A k \in 1..Len(r.fcls[i]) : r.fcls[i][k] # 3) =>
+            \A i \in 1..Len(r.fcls) : Len(r.fcls[i]) >= 2 =>
+                 \/ \A k \in 1..Len(r.fcls[i]) : r.fcls[i][k] = 1
+                 \/ r.fsym[i]
+                 \/ \A k \in 1..Len(r.fcls[i]) : r.fcls[i][k] # 2)
 
 Init == n \in 1..Len(Recs) /\ CheckRec(Recs[n])
 Next == FALSE /\ n' = n
